@@ -35,7 +35,10 @@ MANIFEST = {
             "an unknown field number gives error code 1 for it and 2 for the rest; the 60928 command stores lower/upper/system instance "
             "masked to 3/5/4 bits and latches device-information-changed iff something changed; the 126998 command stores the "
             "descriptions, latches the flag and a following configuration-information request is served with them; the 126993 request "
-            "sets interval (1000..60000 ms) and offset (<= 60000 ms) and is refused outside and for 0 with the state unchanged. "
+            "sets interval (1000..60000 ms) and offset (<= 60000 ms) and is refused outside and for 0 with the state unchanged; the delayed "
+            "address claim is armed, not lost by other answers and sent once by a poll >= 3 ms later. Run level: from any reachable state and "
+            "after ANY history of messages/polls/clock advances the next message is answered as above (C09_history_answers) and the "
+            "configuration state equals the in-order fold of the accepted commands over the initial state (C09_history_configuration). "
             "Correspondence: the real node behind a mock CAN driver (both timer builds) receives generated fast-packet 126208 messages "
             "(per-field match/mismatch/other-attribute/truncated/repeated/unknown experiments for every field of every handler, all "
             "function codes x dedicated/transmit/unknown/proprietary PGNs x addressed/broadcast/foreign, pair counts 0..255, interval/"
